@@ -1,12 +1,15 @@
 (* C11: ack-required locks.  Engine part (every db value, by unfolding the executable model Engine/Engine*.v) and
-   acknowledgement-layer part (Engine/Ack.v: the real ReplicationAckDB drives it in the correspondence check).
-   Local theorems hold for EVERY state; the run theorem for every `arun (init_astate ..) acts` whose registrations are
-   fresh (the re-entrant re-lock and the late registration -- known findings, refuted below -- are excluded by that
-   hypothesis and by nothing else).  Statement vocabulary: Engine/AckProofs*.v. *)
+   acknowledgement-layer part (Engine/Ack.v: the real ReplicationAckDB drives it in the correspondence check --
+   ProcessLeaderPushLock for LOCK records, ProcessLeaderPushUnLock for UNLOCK records, ProcessLeaderAofed / Acked).
+   Local theorems hold for EVERY state; the run theorems for every `arun (init_astate ..) acts` that passes a run
+   monitor: `arun_ok` (registrations are fresh: the re-entrant re-lock and the late registration -- known findings,
+   refuted below -- are excluded by that hypothesis and by nothing else) and its successor `arun_ok2` (in addition no
+   registered record has been released or re-commanded: `reg_sound`, an assumption about the engine's reference
+   counting, violated by the re-entrant re-lock finding).  Statement vocabulary: Engine/AckProofs*.v. *)
 From Coq Require Import String List NArith ZArith.
 From Slock Require Import Engine.Types Engine.Queues Engine.Timers Engine.Engine Engine.Engine2 Engine.Ack.
 From Slock Require Import Engine.AckProofsBase Engine.AckProofsAck Engine.AckProofsWait Engine.AckProofsTimeout
-  Engine.AckProofsGrant Engine.AckProofsRel Engine.AckProofsGlobal Engine.AckProofsRefute.
+  Engine.AckProofsGrant Engine.AckProofsRel Engine.AckProofsGlobal Engine.AckProofsUnreg Engine.AckProofsRefute.
 Import ListNotations.
 Open Scope N_scope.
 
@@ -319,6 +322,109 @@ Example C11_completion_needs_quorum_nonvacuous :
   /\ answers [snd (ack_event st 0 true)] = [[EReply 1 1 R_SUCCED 1 1 101 0 0 None]].
 Proof. vm_compute. repeat split; discriminate. Qed.
 
+(* ---------------------------------------------------------------- A7: UNLOCK records drop the registration *)
+(* ProcessLeaderPushUnLock on a released object (lock.command == nil) or for a RequestId that has no registration: nothing *)
+Theorem C11_unlock_record_without_registration : forall st r,
+  (aget (store (a_db st)) r = None
+   \/ exists l, aget (store (a_db st)) r = Some l /\ reg_find_req (a_reg st) (c_req (l_cmd l)) = None) ->
+  unregister st r = (st, []).
+Proof.
+  intros st r [H|(l & H & F)]; [apply unregister_released; exact H|eapply unregister_unknown; eauto].
+Qed.
+Goal True. idtac "ASSUMPTIONS-OF C11_unlock_record_without_registration". Abort.
+Print Assumptions C11_unlock_record_without_registration.
+(* record 1 of ex_pending after its acknowledgement: allocated, its RequestId no longer registered *)
+Example C11_unlock_record_without_registration_nonvacuous :
+  let st := fst (astep ex_pending (AAckEvt 0 true)) in
+  exists l, aget (store (a_db st)) 1 = Some l /\ reg_find_req (a_reg st) (c_req (l_cmd l)) = None.
+Proof. vm_compute. eexists. split; reflexivity. Qed.
+
+(* the UNLOCK record of a registered lock (written by the ack timeout, an expiry, an unlock or a roll-back) -- in any
+   state whose table holds issued indices only (`idx_ok`: every reachable state, C11_registration_indices_issued):
+   the registration made under the RequestId of the lock's command is dropped, DoAckLock(lock, false) runs on the
+   record's lock, and for EVERY continuation of the run an acknowledgement event for the dropped index produces no
+   event and changes nothing *)
+Theorem C11_unlock_record_drops_registration : forall st r l i r0 st' ev,
+  idx_ok st ->
+  aget (store (a_db st)) r = Some l ->
+  reg_find_req (a_reg st) (c_req (l_cmd l)) = Some (i, r0) ->
+  unregister st r = (st', ev) ->
+  (exists s', finish (do_ack (a_db st) r false) = (s', ev)
+              /\ st' = mkA s' (a_cfg st) (reg_del (a_reg st) i) (a_next st))
+  /\ reg_find (a_reg st') i = None
+  /\ forall acts ok, let st2 := fst (arun st' acts) in ack_event st2 i ok = (st2, []).
+Proof. exact unlock_record_drops_registration. Qed.
+Goal True. idtac "ASSUMPTIONS-OF C11_unlock_record_drops_registration". Abort.
+Print Assumptions C11_unlock_record_drops_registration.
+Example C11_unlock_record_drops_registration_nonvacuous :
+  idx_ok ex_pending /\ (exists l, aget (store (a_db ex_pending)) 1 = Some l /\ c_req (l_cmd l) = 1)
+  /\ reg_find_req (a_reg ex_pending) 1 = Some (0, 1).
+Proof.
+  split; [intros e [<-|[]]; vm_compute; reflexivity|]. split; [vm_compute; eexists; split; reflexivity|vm_compute; reflexivity].
+Qed.
+
+Theorem C11_registration_indices_issued : forall t0 aoft cfg acts, idx_ok (fst (arun (init_astate t0 aoft cfg) acts)).
+Proof. intros. apply arun_idx. apply idx_ok_init. Qed.
+Goal True. idtac "ASSUMPTIONS-OF C11_registration_indices_issued". Abort.
+Print Assumptions C11_registration_indices_issued.
+Example C11_registration_indices_issued_nonvacuous : a_reg ex_pending = [(0, (1, 1))] /\ a_next ex_pending = 1.
+Proof. vm_compute. split; reflexivity. Qed.
+
+(* the whole interleaving "acknowledgement delayed and pre-empted by the ack timeout": ack-lock request 1 is granted,
+   registered (index 0) and never acknowledged; its wait times out (TIMEOUT, hold rolled back; the UNLOCK record drops
+   registration 0); a new ack-lock, request 2, takes the same LockId; only now the acknowledgement for index 0
+   arrives: no event; request 2 is reported SUCCED by the acknowledgement of ITS record (index 1) and by nothing else *)
+Definition run_late_ack : list aaction :=
+  [AAct (AReq 1 (ex_lock 1 101)); AAct (AAdvance 6); AAct ASweepT; AAct (AReq 1 (ex_lock 2 101)); AAckEvt 0 true; AAckEvt 1 true].
+Example C11_late_ack_example :
+  let '(st, evs) := arun (init_astate 1000000 1 1) run_late_ack in
+  answers evs = [[]; []; [EReply 1 1 R_TIMEOUT 0 0 101 0 0 None]; []; []; [EReply 1 2 R_SUCCED 1 1 101 0 0 None]]
+  /\ arun_ok2 (init_astate 1000000 1 1) run_late_ack = true.
+Proof. vm_compute. split; reflexivity. Qed.
+
+(* ---------------------------------------------------------------- A8: an acknowledgement answers its own request only *)
+(* DoAckLock, every state: whatever it answers goes to the connection and the RequestId of the record's own command *)
+Theorem C11_ack_answers_own_request : forall s r ok l s' ev w,
+  aget (store s) r = Some l -> do_ack s r ok = (s', ev, w) ->
+  Forall (reply_for (l_conn l) (c_req (l_cmd l))) ev.
+Proof. exact do_ack_answers_own. Qed.
+Goal True. idtac "ASSUMPTIONS-OF C11_ack_answers_own_request". Abort.
+Print Assumptions C11_ack_answers_own_request.
+Example C11_ack_answers_own_request_nonvacuous :
+  exists l, aget (store (a_db ex_pending)) 1 = Some l /\ l_conn l = 1 /\ c_req (l_cmd l) = 1
+            /\ answers [snd (fst (do_ack (a_db ex_pending) 1 true))] = [[EReply 1 1 R_SUCCED 1 1 101 0 0 None]].
+Proof. vm_compute. eexists. repeat split. Qed.
+
+(* THE SECOND RUN THEOREM.  Every run from the initial state that passes the monitor `arun_ok2` = `arun_ok` (fresh
+   registrations, issued indices, DoAckLock driven by the layer only) + `reg_sound` before every action (every
+   registered record is allocated and carries the RequestId it was registered under).  An acknowledgement event for
+   registration i, registered for RequestId q: the record is there and still belongs to request q; if the event is
+   positive EVERY reply of the step goes to q's connection and RequestId (in particular a SUCCED); if it is negative
+   DoAckLock(false) runs on that record, its own reply goes to q and is not SUCCED (the rest of the step is the
+   wake-up pass serving queued requests).  `reg_sound` is a hypothesis, not proved of the engine: it is what the
+   reference taken for the acknowledgement path (AddLock .. DoAckLock) is there to guarantee; the re-entrant re-lock
+   finding violates it, and so does the code when an UNLOCK record fails to drop the registration. *)
+Theorem C11_late_ack_never_answers_another_request : forall cfg t0 aoft pre i ok q r,
+  arun_ok2 (init_astate t0 aoft cfg) (pre ++ [AAckEvt i ok]) = true ->
+  let st := fst (arun (init_astate t0 aoft cfg) pre) in
+  reg_find (a_reg st) i = Some (q, r) ->
+  exists l, aget (store (a_db st)) r = Some l /\ c_req (l_cmd l) = q
+    /\ (ok = true -> Forall (reply_for (l_conn l) q) (snd (ack_event st i ok)))
+    /\ (ok = false ->
+        ack_event st i ok = with_post (drop_reg st i) (finish (do_ack (a_db st) r false))
+        /\ forall s' ev0 w, do_ack (a_db st) r false = (s', ev0, w) ->
+             Forall (reply_for (l_conn l) q) ev0 /\ Forall (fun e => is_succed e = false) ev0).
+Proof. exact late_ack_never_answers_another_request. Qed.
+Goal True. idtac "ASSUMPTIONS-OF C11_late_ack_never_answers_another_request". Abort.
+Print Assumptions C11_late_ack_never_answers_another_request.
+(* the run of C11_late_ack_example up to the acknowledgement of request 2's record *)
+Example C11_late_ack_never_answers_another_request_nonvacuous :
+  let pre := firstn 5 run_late_ack in
+  arun_ok2 (init_astate 1000000 1 1) (pre ++ [AAckEvt 1 true]) = true
+  /\ reg_find (a_reg (fst (arun (init_astate 1000000 1 1) pre))) 1 = Some (2, 2)
+  /\ reg_find (a_reg (fst (arun (init_astate 1000000 1 1) pre))) 0 = None.
+Proof. vm_compute. repeat split. Qed.
+
 (* ---------------------------------------------------------------- the known defects (known_findings/C11.json) *)
 Theorem C11_refuted_reentrant_relock :
   let '(st, evs) := arun (init_astate 1000000 0 1) run_reentrant in
@@ -366,12 +472,18 @@ Proof. exact shared_counter_refuted. Qed.
 Goal True. idtac "ASSUMPTIONS-OF C11_refuted_shared_counter". Abort.
 Print Assumptions C11_refuted_shared_counter.
 
+(* CHANGED with ProcessLeaderPushUnLock in the model: the second terminal reply (LOCKED_ERROR for request 2) is drawn by
+   the hold's own UNLOCK record in the SAME sweep (it drops the registration made a moment before and runs
+   DoAckLock(false) on the dead lock); the acknowledgement that arrives later finds no registration and does nothing.
+   The old statement (second reply at the acknowledgement) was an artefact of the missing unregistration. *)
 Theorem C11_refuted_late_registration :
   let '(st, evs) := arun (init_astate 1000000 0 1) run_late_registration in
   answers evs =
     [[]; []; [];
-     [EReply 1 1 R_TIMEOUT 0 0 101 0 0 None; EReply 1 2 R_TIMEOUT 0 0 102 0 0 None];
-     [EReply 1 2 R_LOCKED_ERROR 0 0 102 0 0 None]].
+     [EReply 1 1 R_TIMEOUT 0 0 101 0 0 None; EReply 1 2 R_TIMEOUT 0 0 102 0 0 None;
+      EReply 1 2 R_LOCKED_ERROR 0 0 102 0 0 None];
+     []]
+  /\ a_reg st = [] /\ a_next st = 2.
 Proof. exact late_registration_refuted. Qed.
 Goal True. idtac "ASSUMPTIONS-OF C11_refuted_late_registration". Abort.
 Print Assumptions C11_refuted_late_registration.
